@@ -286,4 +286,39 @@ PROPS = {
                 "handshake in one semantic respect. Distinct = hash of the batch. evaluations counts batches (classes count connections).",
         "assumptions": COMMON_ASSUME + ["crypto/tls, crypto/x509 and the TLS exporter are trusted", "real time: slowness can only hide a leak (checked after a barrier), never invent one"],
     },
+    "C17": {
+        "module": "core", "pkg": "./checks", "level": "exploration",
+        "jobs": [
+            {"test": "TestC17Scenarios", "quick": 1, "thorough": 1, "env_thorough": {"VERIF_C17_BIG": "1"}},
+            {"test": "TestC17", "quick": 150, "thorough": 6000, "shards_thorough": 6},
+        ],
+        "rule": "Real TLS over loopback between 4 parties built with net.Listen / ServiceConnections / NewSocketRemoteParty. TestC17: rapid draws 1..10 "
+                "concurrent sender goroutines, each with 1..3 destinations and 1..12 messages whose payload length is drawn from {0,1,2,31,32,33, "
+                "16KiB-1..+1, 64KiB-1..+1, 1MiB}; every (goroutine -> receiver) stream must arrive exactly once, in order, byte-identical (type, "
+                "topic, payload), attributed to the sender. TestC17Scenarios: every message type (1,2 with a 32-byte topic, others without) through "
+                "a raw client and the library's sender; a frame announcing limit+1 bytes yields nothing more from that connection (thorough: a frame "
+                "of exactly 20 MiB is delivered); 7 kinds of broken frames after a valid handshake; peers that hold a TCP connection without "
+                "starting TLS; bursts of 6000+3x1500 messages to one destination (more than its queue holds) keep per-goroutine order; a down "
+                "peer and a stalled peer (accepts TLS, never reads) get 1100 frames of 64 KiB while the process is observed for >= 12 s and the "
+                "remaining peers must keep exchanging messages. Non-trivial = >= 2 concurrent streams, a boundary length, or a fault scenario. "
+                "Distinct = hash of the case / scenario name.",
+        "assumptions": COMMON_ASSUME + ["real time: 'slow' is sampled, not explored; generous arrival deadlines (10..60 s) so that load cannot raise an alarm"],
+    },
+    "C20": {
+        "module": "core", "pkg": "./checks", "level": "exploration",
+        "jobs": [
+            {"test": "TestC20", "quick": 70, "thorough": 2800, "shards_thorough": 14, "race": True, "timeout_quick": 1200},
+        ],
+        "rule": "Built with -race (GORACE=halt_on_error=1), real time, threshold.SyncInterval = 2 ms: real LoudScheme/SilentScheme nodes (n in 3..4; "
+                "BLS, PS, scripted backend) on a network with ONE DISPATCHER GOROUTINE PER INCOMING LINK of every node, so HandleMessage runs "
+                "concurrently inside one node; rapid draws mode, backend, jitter (Gosched / 0..200 us sleeps from a case-derived PRNG), start "
+                "staggering of up to several synchronisation intervals (traffic reaches nodes before their first API call), 0..2 concurrent signing "
+                "sessions on different topics after the key generation, duplicated / re-routed copies of participant 1's protocol frames, and a "
+                "second key generation under a tight-loop replay of the first one's protocol frames (out-of-phase shares, commitments, reveals, "
+                "acks from the very start). Oracle: no race report and no 'concurrent map' fatal error; completion is counted, not judged. "
+                "Non-trivial = at least two dispatchers were inside HandleMessage of one node at the same time, or early/duplicate traffic was "
+                "injected. Distinct = hash of the case.",
+        "assumptions": COMMON_ASSUME + ["the Go race detector's happens-before analysis; a race needs both accesses to occur in the run: interleavings are sampled, not owned",
+                                         "a race report whose two accesses both lie outside the repository is a harness race and is reported as inconclusive, never as a violation"],
+    },
 }
